@@ -1007,6 +1007,8 @@ def fail_pos(op: dict, real: Real) -> str:
 # --------------------------------------------------------------------------- history runner
 
 EMPTY = {"values": [], "nodes": [], "graphs": [], "tensors": []}
+# composite calls for which the model (like the code) keeps the effects of the sub-calls before a rejected one
+NOT_ATOMIC = ("rauwMany", "replaceNodesAndValues")
 
 
 def run_one(rng: random.Random, length: int, part: Part, fixed_ops: list | None = None, p_invalid: float = 0.3) -> dict:
@@ -1069,10 +1071,26 @@ def _worker(args):
     return part
 
 
+def _lean_batch_retry(reqs: list[dict]) -> list[dict]:
+    """`lean_batch`, tolerating the short window in which a concurrent `lake build` relinks the driver."""
+    import time
+
+    from harness.common import Infra
+
+    for attempt in range(30):
+        try:
+            return lean_batch(reqs)
+        except (Infra, FileNotFoundError, OSError):
+            if attempt == 29:
+                raise
+            time.sleep(2)
+    raise AssertionError
+
+
 def compare_with_model(ctx, hists: list[dict]) -> None:
     """Send the histories to the Lean model and diff outcome + state delta after every step."""
     reqs = [{"m": "kernel.run", "ops": h["mops"]} for h in hists]
-    outs = lean_batch(reqs)
+    outs = _lean_batch_retry(reqs)
     for h, out in zip(hists, outs):
         ops = h["ops"]
         nontrivial = any(o["op"] not in ("newValue", "setConst") for o in ops)
@@ -1090,7 +1108,7 @@ def compare_with_model(ctx, hists: list[dict]) -> None:
             if st["o"] != o:
                 ctx.disagree(f"outcome differs at step {i} ({op['op']})", {"ops": ops[: i + 1]}, st["o"], o)
                 break
-            if st["o"] == "raised" and not st["eq"]:
+            if st["o"] == "raised" and not st["eq"] and op["op"] not in NOT_ATOMIC:
                 ctx.disagree(f"model world changed by a raising step {i}", {"ops": ops[: i + 1]})
                 break
             if st["d"] != d:
